@@ -600,25 +600,61 @@ def compare_export(chunk, atoms, impl, stats):
     return None
 
 
+def canon_applicable(s):
+    """the hypotheses of C13_roundtrip that a snapshot can violate: symmetric information, no custom edge that writes itself"""
+    for e in s['edges']:
+        if e['t'] == 'cus' and CT[e['ct']][4]:
+            return False
+        if not same_mat(e['info'], [list(r) for r in zip(*e['info'])]):
+            return False
+    return True
+
+
 def run_export(rng, n, prefix):
-    """n random graphs through model export and Graph.to_g2o."""
+    """n random graphs through model export and Graph.to_g2o; for those inside the hypotheses of C13_roundtrip also
+    the model's canon g (and canon (canon g)) against the graph re-imported after one (two) real cycles."""
     stats, cases = {}, []
     for k in range(n):
-        g = gen_graph(rng, 'ok' if k % 3 == 0 else 'any')
+        g = gen_graph(rng, 'ok' if k % 3 != 2 else 'any')
         s, atoms, expr = export_case_expr(g)
         cases.append((g, s, atoms, expr))
-    chunks, errs = run_coq(prefix, [c[3] for c in cases])
+    exprs = [c[3] for c in cases]
+    cidx = {}
+    for k, (g, s, atoms, expr) in enumerate(cases):
+        if py_refusal(s) is None and canon_applicable(s):
+            cls, zc = atoms.classes()
+            term = coq_graph(s, Atoms())
+            cidx[k] = len(exprs)
+            exprs.append('dump_graph (scanon %s %s %s)' % (cls, coq_z(zc), term))
+            exprs.append('dump_graph (scanon %s %s (scanon %s %s %s))' % (cls, coq_z(zc), cls, coq_z(zc), term))
+    chunks, errs = run_coq(prefix, exprs)
     dis = []
     agree = 0
-    for (g, s, atoms, expr), ch in zip(cases, chunks):
+    for k, (g, s, atoms, expr) in enumerate(cases):
+        ch = chunks[k]
         if ch is None:
             continue
         why = compare_export(ch, atoms, impl_export(g), stats)
+        if not why and k in cidx and chunks[cidx[k]] is not None and chunks[cidx[k] + 1] is not None:
+            try:
+                g1 = cycle(build_graph(s))
+                g2 = cycle(g1)
+            except Exception as ex:  # noqa
+                why = 'model: expressible; implementation cycle raised %s: %s' % (type(ex).__name__, ex)
+            else:
+                for nm, chn, gi in (('canon g', chunks[cidx[k]], g1), ('canon (canon g)', chunks[cidx[k] + 1], g2)):
+                    rd = Reader(chn[1:])
+                    mg = eval_graph(rd.graph(), atoms.table)
+                    why = diff_snapshots(mg, snapshot(gi), 'model %s vs re-imported graph' % nm)
+                    if why:
+                        break
+                    stats['canon_checked'] = stats.get('canon_checked', 0) + 1
         if why:
-            dis.append({'side': 'export', 'why': why, 'graph': s})
+            dis.append({'side': 'export', 'why': why, 'graph': snap_json(s)})
         else:
             agree += 1
-    return {'evaluations': len(cases), 'agree': agree, 'disagreements': dis, 'coq_errors': errs, 'stats': stats}
+    return {'evaluations': len(cases) + 2 * len(cidx), 'agree': agree + (0 if dis else 2 * len(cidx)), 'disagreements': dis,
+            'coq_errors': errs, 'stats': stats, 'hist': {}}
 
 
 # ------------------------------------------------------------------------------------------------
